@@ -270,9 +270,12 @@ func ValidRefs() []Ref {
 	return []Ref{{false, 0}, {false, 1}, {false, 2}, {false, 3}, {false, 4}, {false, 5}, {false, FarOffset}, {true, 4}, {true, 5}, {true, FarOffset}}
 }
 
-// OddRefs: dynamic topics and offset 2^32 (must not validate).
+// OddRefs: dynamic topics and offsets from 2^32 on (must not validate): 2^32, and
+// offsets whose distance to a multiple of 2^59 is small (2^59+4, 2^60+4, 7*2^59+5,
+// 2^63+4, 2^64-1): multiplied by the word size they wrap around in 64 bits.
 func OddRefs() []Ref {
-	return []Ref{{true, 0}, {true, 1}, {true, 2}, {true, 3}, {false, 1 << 32}, {true, 1 << 32}}
+	return []Ref{{true, 0}, {true, 1}, {true, 2}, {true, 3}, {false, 1 << 32}, {true, 1 << 32},
+		{false, 1<<59 + 4}, {true, 1<<59 + 4}, {false, 1<<60 + 4}, {true, 7<<59 + 5}, {false, 1<<63 + 4}, {false, math.MaxUint64}, {true, math.MaxUint64}}
 }
 
 func cross(refs []Ref, vps []*VP) []Pred {
@@ -362,7 +365,11 @@ func reducedVPs(thorough bool) []*VP {
 // MatchDefSpace: candidates for the Match / filter phase. The real Validate
 // decides which of them are valid.
 func MatchDefSpace(thorough bool) *DefSpace {
-	s := &DefSpace{Pool: cross(ValidRefs(), ValidVPs()), K2: 2, Contracts: [][20]byte{Contract}}
+	// also references whose offset must not validate (offsets that wrap around when
+	// multiplied by the word size): should Validate let one through, Match is held to
+	// the documented semantics for it like for any other valid definition
+	refs := append(ValidRefs(), Ref{false, 1<<59 + 4}, Ref{true, 1<<59 + 4}, Ref{false, 7<<59 + 5})
+	s := &DefSpace{Pool: cross(refs, ValidVPs()), K2: 2, Contracts: [][20]byte{Contract}}
 	s.K3 = true
 	s.Pool3 = cross(ValidRefs(), reducedVPs(thorough))
 	return s
